@@ -34,6 +34,10 @@ type c20Case struct {
 	// Tail: the inscription script of the ordinal goes on with OP_RETURN and this many raw bytes
 	// (an enriched inscription); 0 = none, 1..5 = tails of 0, 1, 2, 2, 3 bytes
 	Tail int `json:"ordinal_script_op_return_tail,omitempty"`
+	// SellerScript: what the seller asks to be paid to: 0 P2PKH, 1 P2PK (uncompressed key), 2 1-of-2
+	// multisig, 3 P2PKH continued by an inscription envelope, 4 a 100-byte script. (A flow may
+	// refuse a shape; what it completes must satisfy the statement.)
+	SellerScript int `json:"seller_receive_script,omitempty"`
 }
 
 var c20Keys = testPrivKeys(4)
@@ -69,6 +73,16 @@ func c20Check(c c20Case) (fs []rep.Finding) {
 	dummyScript := refP2PKH(fill(20, 0xd1))
 	changeScript := refP2PKH(fill(20, 0xc1))
 	sellerRecv := refP2PKH(fill(20, 0x51))
+	switch c.SellerScript {
+	case 1:
+		sellerRecv = bytesJoin([]byte{0x41, 0x04}, fill(64, 0x51), []byte{0xac})
+	case 2:
+		sellerRecv = bytesJoin([]byte{0x51, 0x21, 0x02}, fill(32, 0x51), []byte{0x21, 0x03}, fill(32, 0x52), []byte{0x52, 0xae})
+	case 3:
+		sellerRecv = append(append([]byte(nil), sellerRecv...), c14Templates()["inscription"][25:]...)
+	case 4:
+		sellerRecv = append([]byte{0x4c, 98}, fill(98, 0x51)...)
+	}
 	prevOuts := map[string]*bt.Output{hex.EncodeToString(ordUTXO.TxID) + fmt.Sprint(ordUTXO.Vout): {Satoshis: c.OrdSats, LockingScript: libScript(ordLock)}}
 	var funds []*bt.UTXO
 	for i, v := range c.Funds {
@@ -363,7 +377,7 @@ func lenClass(n int) string {
 
 func init() {
 	p := register(&Prop{ID: "C20", Level: "exploration",
-		Rule: "exhaustive product: 4 flow pairs (list->accept, list->accept2Dummies, bid->accept, bid2Dummies->accept2Dummies) x seller/buyer keys (2x2 quick, 3x3 thorough) x funding UTXOs all locked to the buyer's key / each to a key of its own / the second one being another output of the ordinal's transaction x prices {1,2,546,1000,1000000} x ordinal UTXO of 1 (and 2) satoshis, plain or inscription script (also continued by OP_RETURN and a well-formed tail of 0..3 bytes) x funding sets of 2..4 UTXOs whose values are placed around the thresholds (price, price+1, reference-fee boundary -2..+3, ample) with the UTXO exceeding the price at every position, and sets in which no UTXO exceeds the price although two or three together do x 3 fee quotes; the partially signed tx crosses a serialisation boundary. Oracle for every completed transaction (examined after the same partially signed transaction object was completed a second time towards other scripts, which must not change it): each input accepted by Execute(WithTx, WithForkID, WithAfterGenesis) against its spent output; listing flows keep the seller's output byte-identical at the index of the seller's input; FIFO satoshi assignment puts the ordinal's first satoshi in the buyer's script; inputs-outputs >= reference fee of the actual size. Inscriptions: content-type lengths {0,1,75,76,255,256} x payload lengths {0,1,75,76,255,256,65535,65536} x enrichment {none,1,2 parts} x prefix with/without spare capacity, plus one- and two-byte payloads and content types with every first byte value, inscribed twice through Inscribe and once through InscribeSpecificOrdinal (ordinal 3 of the second input; the separating output must hold the satoshis in front of it): ParseInscription returns the same content type, data and 25-byte prefix. distinct_nontrivial = distinct completed transactions + inscription cases",
+		Rule: "exhaustive product: 4 flow pairs (list->accept, list->accept2Dummies, bid->accept, bid2Dummies->accept2Dummies) x seller/buyer keys (2x2 quick, 3x3 thorough) x funding UTXOs all locked to the buyer's key / each to a key of its own / the second one being another output of the ordinal's transaction x prices {1,2,546,1000,1000000} x ordinal UTXO of 1 (and 2) satoshis, plain or inscription script (also continued by OP_RETURN and a well-formed tail of 0..3 bytes) x funding sets of 2..4 UTXOs whose values are placed around the thresholds (price, price+1, reference-fee boundary -2..+3, ample) with the UTXO exceeding the price at every position, and sets in which no UTXO exceeds the price although two or three together do x 3 fee quotes x the script the seller asks to be paid to {P2PKH; and for the first key pair P2PK with an uncompressed key, 1-of-2 multisig, P2PKH continued by an inscription, a 100-byte script - a flow may refuse a shape, what it completes is judged}; the partially signed tx crosses a serialisation boundary. Oracle for every completed transaction (examined after the same partially signed transaction object was completed a second time towards other scripts, which must not change it): each input accepted by Execute(WithTx, WithForkID, WithAfterGenesis) against its spent output; listing flows keep the seller's output byte-identical at the index of the seller's input; FIFO satoshi assignment puts the ordinal's first satoshi in the buyer's script; inputs-outputs >= reference fee of the actual size. Inscriptions: content-type lengths {0,1,75,76,255,256} x payload lengths {0,1,75,76,255,256,65535,65536} x enrichment {none,1,2 parts} x prefix with/without spare capacity, plus one- and two-byte payloads and content types with every first byte value, inscribed twice through Inscribe and once through InscribeSpecificOrdinal (ordinal 3 of the second input; the separating output must hold the satoshis in front of it): ParseInscription returns the same content type, data and 25-byte prefix. distinct_nontrivial = distinct completed transactions + inscription cases",
 	})
 	sF := NewSpace(p, "flows", c20Check)
 	sI := NewSpace(p, "inscriptions", c20InscCheck)
@@ -424,6 +438,10 @@ func init() {
 											if s+b == 0 || thorough {
 												yield(c20Case{Flow: flow, Seller: s, Buyer: b, Price: price, OrdSats: ordSats, Funds: fs, Q: q, Insc: (s+b+int(ex))%2 == 0, SameTx: true})
 												completed++
+												for ss := 1; ss <= 4; ss++ {
+													yield(c20Case{Flow: flow, Seller: s, Buyer: b, Price: price, OrdSats: ordSats, Funds: fs, Q: q, Insc: ss%2 == 0, SellerScript: ss})
+													completed++
+												}
 											}
 										}
 									}
